@@ -222,7 +222,9 @@ def run_job(job, ctx):
         # mapping onto an unsupported grammar must be rejected up front
         for bad_target, pre, post in (("zzz", [], []), (s.upper() if s.upper() != s else s + "x", [], []), ("", [], []),
                                       ("zzz", ["-E", "good1=%s" % s], []), ("nope", ["-E", "g1=%s" % s, "-E", "g2=py"], ["-E", "g3=rs"]),
-                                      ("zzz", [], ["-E", "good2=%s" % s])):
+                                      ("zzz", [], ["-E", "good2=%s" % s]),
+                                      # the target is the *key* of another mapping, not a grammar (mappings are not chained)
+                                      ("k1", ["-E", "k1=%s" % s], []), ("k2", [], ["-E", "k2=%s" % s]), ("abc2", ["-E", "abc2=abc"], [])):
             root = run.make_repo({"x.py": '# <block name="a">\n# </block>\n'})
             try:
                 res = run.run(ctx.bin("rel"), ["list"] + pre + ["-E", "abc=%s" % bad_target] + post, root, stdin=None, env=dict(TERM))
